@@ -218,6 +218,9 @@ class Engine:
                     bb = t['t']
                 elif k == 'assert':
                     c = self.operand(t['cond'], fn, fid, s)
+                    if t['kind'] == 'BoundsCheck' or t['kind'].startswith('Overflow'):
+                        s.events.append(('assert', t['kind'], [self.purify(self.operand(x, fn, fid, s), s) for x in t['ops']],
+                                         (fn['path'], t['sp']['line'])))
                     if is_c(c):
                         if bool(c[1]) == bool(t['expected']):
                             bb = t['t']
